@@ -478,6 +478,88 @@ def run(ctx):
                          "suffrage-confirm voteproof just taken")
             ctx.violation(key, what, {"history": hist, "cap_before": a, "cap_after": b, "real_replay": rows2})
 
+    # ---- 2c. the handler judged by what it TAKES, not by what Cap() says (seeded change C06d made Cap() itself
+    # stale: judged against Cap() alone, a handler whose Cap() stops following the accepted voteproofs looks
+    # perfectly monotonic). Position = the last voteproof Set() accepted; the relation (last taken, next taken) over
+    # every (node, last taken) reachable from the empty handler is written in the box-relation format and judged by
+    # the same TLC run as the ballot box relation (LastPointRel!SpecBox: HeightOK / BackOK / RetakeOK).
+    tparent = {(empty, pk(ZERO)): None}
+    tlast = {(empty, pk(ZERO)): ZERO}
+    ttodo = [(empty, pk(ZERO))]
+    trows_taken, tmeta = [], []
+    seen_rows = set()
+    while ttodo:
+        st = ttodo.pop(0)
+        i, _ = st
+        last = tlast[st]
+        for e in byid[i]["out"]:
+            if not e["ret"]:
+                continue
+            if not e.get("new"):
+                # Set() returned true without judging the voteproof new: it only filled a missing slot (fillMissing);
+                # the handler moved to another node but took no position
+                nst = (e["to"], pk(last))
+                if nst not in tparent:
+                    tparent[nst] = (st, e["cand"])
+                    tlast[nst] = last
+                    ttodo.append(nst)
+                continue
+            nst = (e["to"], pk(e["cand"]))
+            rk = (i, pk(last), pk(e["cand"]))
+            if rk not in seen_rows:
+                seen_rows.add(rk)
+                trows_taken.append({"entry": "HandlerTaken", "last": last, "cand": e["cand"], "after": e["cand"], "ok": True})
+                tmeta.append((st, e))
+            if nst not in tparent:
+                tparent[nst] = (st, e["cand"])
+                tlast[nst] = e["cand"]
+                ttodo.append(nst)
+
+    def thistory(st):
+        hs = []
+        while tparent[st] is not None:
+            hs.append(tparent[st][1])
+            st = tparent[st][0]
+        return hs[::-1]
+
+    taken_file = os.path.join(ctx.work, "rel.taken")
+    core.write_ndjson(taken_file, trows_taken)
+    rt, subt = _rel(ctx, "rel-taken", "LastPointRel_box.cfg", {"c06_tab.ndjson": tab, "c06_box.ndjson": taken_file, "c06_hdl.ndjson": rel + ".hdl"})
+    ctx.states += rt.distinct
+    ctx.transitions += rt.generated
+    ctx.tlc_cmds += subt.tlc_cmds
+    if rt.distinct != len(trows_taken):
+        raise core.MachineryError("TLC checked %d of %d handler-taken rows" % (rt.distinct, len(trows_taken)))
+    ctx.traces += len(trows_taken)
+    ctx.extra["handler_taken_relation_rows"] = len(trows_taken)
+    tc = []
+    for (cls, k, _) in _mismatches(rt):
+        st, e = tmeta[k - 1]
+        tc.append((cls.replace("box:", "handler-taken:"), st, e, thistory(st) + [e["cand"]]))
+    # one history per (class, cap-vs-last situation) is enough to report; all are replayed
+    if tc:
+        realt = _replay(ctx, "takencex", [[{"a": "SetV", "cand": c} for c in hist] for (_, _, _, hist) in tc])
+        reported = {}
+        for (cls, st, e, hist), rows2 in zip(tc, realt):
+            ctx.traces += 1
+            if len(rows2) != len(hist) or not all(x["ok"] for x in rows2):
+                ctx.extra.setdefault("taken_rows_not_reproduced_by_history", []).append({"class": cls, "history": [pstr(x) for x in hist]})
+                continue
+            last, cand, cap = tlast[st], e["cand"], byid[st[0]]["cap"]
+            key = cls
+            # the situation of the known handler finding: the last taken voteproof is an INIT suffrage-confirm result of an
+            # earlier round and Cap() is still the ACCEPT voteproof kept from before (a later point of the same height)
+            if (last["s"] == 1 and last["c"] == 1 and cap["s"] == 3 and pk(cap) == pk(byid[st[0]]["avp"])
+                    and cap["h"] == last["h"] and cap["r"] >= last["r"]):
+                key = cls + ";judged-against-the-older-accept-kept-after-an-sc-stepback"
+            reported[key] = reported.get(key, 0) + 1
+            if reported[key] > 3:
+                continue
+            ctx.violation(key, "LastVoteproofsHandler: Set of %s were all accepted: the position taken moves from %s to %s while Cap() = %s (%s)" % (
+                " ; ".join(pstr(x) for x in hist), pstr(last), pstr(cand), pstr(cap), cls),
+                {"history": hist, "last_taken": last, "taken": cand, "cap": cap, "real_replay": rows2})
+        ctx.extra["handler_taken_mismatch_classes"] = reported
+
     # recurrence over a history: evidence only
     rr = res["recur"][0]
     ctx.extra["position_can_recur_later_in_a_history"] = bool(rr.safety_violation)
